@@ -571,10 +571,18 @@ class Val(object):
         self.nested = False  # pointer rvalue loaded from a pointer declared with a tag defined inside another declaration
         self.arr_start = None   # rel of the innermost array member gone through since the last hop
         self.arr_lead = False   # ... and that array is the first thing (offset 0) in its struct/union
+        self.anc = []           # [(rel, node)] aggregates/arrays gone through since the last hop (incl. the pointee)
 
-    def carry(self, other):
+    def carry(self, other, push=False):
         self.arr_start, self.arr_lead = other.arr_start, other.arr_lead
+        self.anc = list(other.anc)
+        if push and self.node["T"][0] in ("agg", "arr"):
+            self.anc.append((self.rel, self.node))
         return self
+
+    def enclosing_nodes(self):
+        """objects on the access path that start at the very address designated"""
+        return [n for r, n in self.anc if r == self.rel]
 
     def leading_array_element(self):
         """the access designates the first bytes of element 0 of an array member placed at offset 0 of its
@@ -593,6 +601,7 @@ def to_rv(lay, v):
     if R[0] == "ptr":
         out = Val("rv", (("load", v.loc), 0), lay.node_for(R[1]))
         out.nested = is_nested_ref(lay, R[1])
+        out.anc = [(0, out.node)]
         return out
     if R[0] == "arr":
         return Val("rv", v.loc, v.node["elem"], v.rel, True).carry(v)
@@ -628,7 +637,9 @@ def eval_ast(lay, ast, rootnode, varname="ptr", trace=None):
     if isinstance(ast, c_ast.ID):
         if ast.name != varname:
             raise EvalError("unknown identifier %s" % ast.name)
-        return Val("rv", ("ptr", 0), rootnode)
+        out = Val("rv", ("ptr", 0), rootnode)
+        out.anc = [(0, rootnode)]
+        return out
     if isinstance(ast, c_ast.Constant):
         raise EvalError("bare constant")
     if isinstance(ast, c_ast.UnaryOp) and ast.op == "*":
@@ -639,7 +650,7 @@ def eval_ast(lay, ast, rootnode, varname="ptr", trace=None):
             raise SkipAccess("function designator")
         if v.node["T"][0] == "void":
             raise SkipAccess("deref of void pointer")
-        return Val("lv", v.loc, v.node, v.rel, v.arr).carry(v)
+        return Val("lv", v.loc, v.node, v.rel, v.arr).carry(v, True)
     if isinstance(ast, c_ast.UnaryOp) and ast.op == "&":
         v = eval_ast(lay, ast.expr, rootnode, varname, trace)
         if v.kind != "lv":
@@ -655,7 +666,7 @@ def eval_ast(lay, ast, rootnode, varname="ptr", trace=None):
         k = int(ast.subscript.value, 0)
         if v.node["size"] is None:
             raise EvalError("index of void/function pointer")
-        return Val("lv", add(v.loc, k * v.node["size"]), v.node, v.rel + k * v.node["size"], v.arr).carry(v)
+        return Val("lv", add(v.loc, k * v.node["size"]), v.node, v.rel + k * v.node["size"], v.arr).carry(v, True)
     if isinstance(ast, c_ast.StructRef):
         v0 = eval_ast(lay, ast.name, rootnode, varname, trace)
         if ast.type == ".":
@@ -674,7 +685,7 @@ def eval_ast(lay, ast, rootnode, varname="ptr", trace=None):
         if ast.field.name.startswith("__ANONYMOUS__") or ast.field.name.startswith("__PAD__"):
             raise SkipAccess("internal member name")
         off, sub = field_of(v.node, ast.field.name)
-        out = Val("lv", add(v.loc, off), sub, v.rel + off, v.arr).carry(v)
+        out = Val("lv", add(v.loc, off), sub, v.rel + off, v.arr).carry(v, True)
         if sub["T"][0] == "arr":
             out.arr_start = v.rel + off
             out.arr_lead = (off == 0)
